@@ -13,8 +13,9 @@ RULE = ('(a) include trees of depth up to 3 written to real temporary files, wit
         'after include statements and inside the included files, parsed through parse_config / parse_config_file / '
         'parse_config_files_and_bindings (called without optional arguments to test the defaults), the store compared '
         'with the parse of the flattened text in a fresh interpreter and the returned include/import tree with the '
-        'mirror; a missing file at a random include position; (b) 1-4 search locations x 1-3 readers with the file '
-        'present at a random subset of the (location, reader) pairs, relative and absolute names; the copy actually '
+        'mirror; a missing file at a random include position (with skip_unknown off, on, or a list of names); (b) 1-4 search locations x 1-3 readers with the file '
+        'present at a random subset of the (location, reader) pairs, relative and absolute names, locations that are '
+        'no directories of the file system (served by the registered readers only); the copy actually '
         'parsed and the locations named in the IOError are compared. non-trivial = include depth >= 2 with a parameter '
         'bound on both sides of an include, or >= 2 (location, reader) pairs holding the file; distinct = canonical case')
 TRUSTED_BASE = ['Lean 4.33 kernel', 'axioms ⊆ {propext, Classical.choice, Quot.sound}', 'JSON glue (Gin/Drv)',
@@ -50,12 +51,16 @@ def gen_tree_case(rng):
   text, stmts, _ = render(rng, specs, regs, fault, files, flat)
   entry = rng.choice(['config', 'file', 'files_and_bindings'])
   ops = list(regs)
+  # skip_unknown is about unknown configurables and imports, never about files: a missing include fails all the same
+  pskip = {'k': 'no'}
+  if rng.random() < (0.6 if missing else 0.15):
+    pskip = rng.choice([{'k': 'all'}, {'k': 'names', 'v': ['zz.q'], '_type': rng.choice(['list', 'tuple', 'set'])}])
   if entry == 'config':
-    ops.append({'op': 'parse', 'file': None, 'skip': {'k': 'no'}, 'stmts': stmts, '_text': text, '_files': files,
+    ops.append({'op': 'parse', 'file': None, 'skip': pskip, 'stmts': stmts, '_text': text, '_files': files,
                 '_as_list': rng.random() < 0.2 and ':' not in text})
   elif entry == 'file':
     files = dict(files, **{'top.gin': text})
-    ops.append({'op': 'parse', 'file': 'top.gin', 'skip': {'k': 'no'}, 'stmts': stmts, '_text': text, '_files': files})
+    ops.append({'op': 'parse', 'file': 'top.gin', 'skip': pskip, 'stmts': stmts, '_text': text, '_files': files})
   else:
     files = dict(files, **{'top.gin': text})
     b2 = S.Builder()
@@ -68,7 +73,7 @@ def gen_tree_case(rng):
         flat.append(('bind', '', reg0['_selector'], cls0[0], b2.stmts[0]['val']))
       lines = b2.text().rstrip('\n').split('\n')
     fin = rng.random() < 0.6
-    skip = {'k': 'no'}
+    skip = pskip if (fault and fault[2]) else {'k': 'no'}
     if rng.random() < 0.4 and not (fault and fault[2]):
       # skip_unknown must reach the extra bindings as well as the files
       skip = rng.choice([{'k': 'all'}, {'k': 'names', 'v': ['zz.q'], '_type': rng.choice(['list', 'tuple', 'set'])}])
@@ -98,7 +103,12 @@ def gen_resolve_case(rng):
   pairs = [(p, r) for p in prefixes for r in readers if r != 'syspath' or p == '']
   if is_abs:
     pairs = [('', r) for r in readers]
+  virtual = [p for p in prefixes[1:] if len(readers) > 1 and rng.random() < 0.5] if not is_abs else []
+  pairs = [(p, r) for p, r in pairs if not (p in virtual and r in ('open', 'syspath'))]
   present = rng.sample(pairs, rng.randint(0, len(pairs)))
+  vpairs = [x for x in pairs if x[0] in virtual]
+  if vpairs and rng.random() < 0.5:   # only the readers' own locations hold the file
+    present = rng.sample(vpairs, rng.randint(1, len(vpairs)))
   if rng.random() < 0.15:
     present = []
   name = 'res_%04d.gin' % rng.randint(0, 9999)
@@ -110,7 +120,7 @@ def gen_resolve_case(rng):
     prefixes = prefixes + [prefixes[1]]
   ops = [{'op': 'resolve', 'prefixes': prefixes, 'readers': readers, 'abs': is_abs,
           'present': [list(x) for x in present], '_name': name, '_pkg': pkg, '_rereg': rereg, '_bad_include': bool(present) and rng.random() < 0.25,
-          '_dirs': [l for l in prefixes + ['syspath'] if rng.random() < 0.2]}]
+          '_dirs': [l for l in prefixes + ['syspath'] if rng.random() < 0.2 and l not in virtual], '_virtual': virtual}]
   return {'dom': 'gin', 'ops': ops, '_kind': 'resolve', '_nregs': 0}
 
 
